@@ -1130,4 +1130,122 @@ theorem classifyILike_fast_ascii (eqv : Char → Char → Bool) (p s : List Char
     exact hrx
 
 
+
+/-! ## substring_by_char -/
+
+theorem encode_take_drop (s : List Char) (i : Nat) :
+    (encode s).take (byteLen (s.take i)) = encode (s.take i) ∧
+    (encode s).drop (byteLen (s.take i)) = encode (s.drop i) := by
+  have h : encode s = encode (s.take i) ++ encode (s.drop i) := by
+    rw [← encode_append, List.take_append_drop]
+  unfold byteLen
+  constructor
+  · rw [h, List.take_left']; rfl
+  · rw [h, List.drop_left']; rfl
+
+theorem byteLen_le (s : List Char) (i : Nat) : byteLen (s.take i) ≤ byteLen s := by
+  have h : encode s = encode (s.take i) ++ encode (s.drop i) := by
+    rw [← encode_append, List.take_append_drop]
+  unfold byteLen; rw [h]; simp
+
+theorem length_le_byteLen (s : List Char) : s.length ≤ byteLen s := by
+  induction s with
+  | nil => simp [byteLen, encode]
+  | cons c s ih =>
+    obtain ⟨l, cs, hc, _⟩ := encodeChar_shape c
+    simp only [byteLen, encode, List.length_append, hc, List.length_cons] at ih ⊢
+    omega
+
+/-- slicing the encoding between the byte offsets of two character positions -/
+theorem slice_chars (s : List Char) (a l : Nat) :
+    ((encode s).take (byteLen (s.take a) + byteLen ((s.drop a).take l))).drop (byteLen (s.take a)) =
+      encode ((s.drop a).take l) := by
+  have h : encode s = encode (s.take a) ++ (encode ((s.drop a).take l) ++ encode ((s.drop a).drop l)) := by
+    rw [← encode_append, ← encode_append, List.take_append_drop, List.take_append_drop]
+  unfold byteLen
+  rw [h, List.take_append, List.drop_append]
+  simp
+
+theorem clampStart_le (n : Nat) (start : Int) : clampStart n start ≤ n := by
+  unfold clampStart; split <;> omega
+
+/-- the UTF-8 path (`utf8_bounds`) -/
+theorem substringByChar_utf8 (s : List Char) (start : Int) (len : Option Nat) :
+    substringByChar false s start len = encode (substrChars s start len) := by
+  unfold substringByChar utf8Bounds substrChars substrSpec
+  simp only [Bool.false_eq_true, if_false]
+  have hidx : (if start ≥ 0 then (if start.toNat < s.length then start.toNat else s.length)
+      else (if (-start).toNat ≤ s.length then s.length - (-start).toNat else 0)) =
+      clampStart s.length start := by
+    unfold clampStart; split <;> split <;> omega
+  rw [hidx]
+  generalize clampStart s.length start = a
+  cases len with
+  | none =>
+    simp only []
+    rw [List.take_of_length_le (show (encode s).length ≤ byteLen s from Nat.le_refl _)]
+    exact (encode_take_drop s a).2
+  | some l =>
+    simp only []
+    by_cases h1 : l ≥ byteLen s - byteLen (s.take a)
+    · simp only [h1, if_true]
+      rw [List.take_of_length_le (show (encode s).length ≤ byteLen s from Nat.le_refl _), (encode_take_drop s a).2]
+      have : (s.drop a).length ≤ l := by
+        have h2 := length_le_byteLen (s.drop a)
+        have h3 : byteLen s = byteLen (s.take a) + byteLen (s.drop a) := by
+          unfold byteLen
+          conv => lhs; rw [← List.take_append_drop a s, encode_append]
+          simp
+        omega
+      rw [List.take_of_length_le this]
+    · simp only [h1, if_false]
+      by_cases h2 : l < (s.drop a).length
+      · simp only [h2, if_true]
+        exact slice_chars s a l
+      · simp only [h2, if_false]
+        rw [List.take_of_length_le (show (encode s).length ≤ byteLen s from Nat.le_refl _), (encode_take_drop s a).2,
+          List.take_of_length_le (show (s.drop a).length ≤ l by omega)]
+
+
+
+/-- the ASCII fast path (`ascii_bounds`): byte arithmetic is character arithmetic -/
+theorem substringByChar_ascii (s : List Char) (start : Int) (len : Option Nat)
+    (hs : isAsciiStr s = true) :
+    substringByChar true s start len = encode (substrChars s start len) := by
+  have hsub : isAsciiStr (substrChars s start len) = true := by
+    apply isAsciiStr_of_subset _ s _ hs
+    intro c hc
+    unfold substrChars substrSpec at hc
+    cases len with
+    | none => exact List.mem_of_mem_drop hc
+    | some l => exact List.mem_of_mem_drop (List.mem_of_mem_take hc)
+  rw [encode_ascii _ hsub]
+  unfold substringByChar asciiBounds substrChars substrSpec
+  simp only [if_true, encode_ascii s hs, List.length_map]
+  have hidx : (if start ≥ 0 then min start.toNat s.length else s.length - (-start).toNat) =
+      clampStart s.length start := by
+    unfold clampStart; split <;> omega
+  rw [hidx]
+  have hle := clampStart_le s.length start
+  generalize clampStart s.length start = a at hle ⊢
+  cases len with
+  | none =>
+    simp only []
+    rw [List.take_of_length_le (show (s.map Char.toNat).length ≤ s.length by simp), List.map_drop]
+  | some l =>
+    simp only []
+    rw [← List.map_take, ← List.map_drop, List.drop_take]
+    by_cases h : a + l ≤ s.length
+    · rw [Nat.min_eq_left h]; congr 2; omega
+    · rw [Nat.min_eq_right (by omega)]
+      rw [List.take_of_length_le (show (s.drop a).length ≤ s.length - a by simp),
+        List.take_of_length_le (show (s.drop a).length ≤ l by simp; omega)]
+
+theorem concatModel_eq (a b : List Char) : concatModel a b = encode (a ++ b) := by
+  simp [concatModel, encode_append]
+
+theorem bitLengthModel_eq (s : List Char) : bitLengthModel s = bitLength s := by
+  simp [bitLengthModel, bitLength, BIT_LENGTH_FACTOR, Nat.mul_comm]
+
+
 end ArrowModel.C20
